@@ -547,7 +547,7 @@ def run(ck, F, tier):
                       'with multi-definition locals resolved through reaching definitions and `|=` modelled as set insertion. Each table is compared semantically '
                       '(equality of Boolean functions, with a concrete distinguishing assignment on mismatch) with the table of H.263 (02/98) clause 5.1 and the Sorenson Spark '
                       'header written in lint/rules/c06.py. decode_picture is checked the same way for the order and presence of every field and for which read feeds which '
-                      'field of the returned record (rule A). Rule I checks the inheritance set OPPTYPE_OPTIONS and the running-options / format fallback logic of '
+                      'field of the returned record (rule A), and for what the sub-parsers that take more than the reader are handed (rule G). Rule I checks the inheritance set OPPTYPE_OPTIONS and the running-options / format fallback logic of '
                       'decoder/state.rs; rule H that DecodedPicture stores the header and format it is given and sizes its planes from that format.')
     ck.assumptions += ['H263Reader::read_bits(n) returns the next n bits MSB first as an unsigned integer (C04/C05 decide the reader); bit i of rK below is bit i of that integer',
                        'distinct associated constants of one bitflags type have disjoint bits (checked by rule B from the constants\' values)',
